@@ -19,6 +19,8 @@ MUTANTS = [
     ("C01", "detect", PAT, "            part_max = min(max_repeat, remaining_max)", "            part_max = max_repeat", "length distribution ignores the remaining maxLength"),
     ("C01", "detect", PAT, "    if minimum == maximum:\n        return f\"{{{minimum}}}\"", "    if minimum == maximum:\n        return f\"{{{minimum},}}\"", "_build_quantifier prints an open upper bound for an exact size"),
     ("C01", "quiet", PAT, "        min_repeat = max(min_repeat, min_length)", "        min_repeat = max(min_length, min_repeat)", "commuted max()"),
+    ("C01", "detect", "specs/openapi/parameters.py", "        if parameter.is_required and name not in required:", "        if name not in required:", "optional parameters become required in the generated object"),
+    ("C01", "detect", HY, "                prop.setdefault(\"minLength\", 1)", "                prop[\"minLength\"] = 1", "a declared minLength of a path parameter is overwritten"),
     # ---- C02
     ("C02", "detect", HY, "        return self.generator is not None and (self.location == \"body\" or self.value is not None)", "        return self.generator is not None", "is_generated ignores absent values"),
     ("C02", "detect", "specs/openapi/negative/mutations.py", "            k in (\"type\", \"properties\", \"items\", \"minItems\")", "            k in (\"type\", \"properties\", \"items\", \"minItems\", \"maxLength\")", "maxLength never negated"),
